@@ -1,9 +1,9 @@
 #!/bin/bash
 # usage: refactor_regress.sh [tier]
-# Every stored behaviour-preserving refactoring (/verif/refactorings/*/patch.diff) is applied to a scratch
+# Every stored behaviour-preserving refactoring (/verif/refactorings/*/patch.diff) and every stored change inside the freedom the properties leave (/verif/unconstrained/*/patch.diff) is applied to a scratch
 # worktree and all 20 checks are run against it; every check must exit 0 (a VIOLATION here is a false alarm).
 TIER=${1:-quick}
-for d in /verif/refactorings/*/; do
+for d in /verif/refactorings/*/ /verif/unconstrained/*/; do
   echo "##### $(basename $d)"
   /verif/tools/refactor_check.sh $d/patch.diff $TIER 2>&1 | grep -v "exit=0 $"
 done
